@@ -4,6 +4,7 @@ import (
 	"encoding/json"
 	"fmt"
 	"os"
+	"os/exec"
 	"path/filepath"
 	"runtime"
 	"runtime/debug"
@@ -266,6 +267,9 @@ func (ck *Check) Main(args []string) {
 	if len(args) >= 4 && (args[0] == "child" || args[0] == "childtape") {
 		ck.ChildMain(args)
 		os.Exit(0)
+	}
+	if len(args) >= 1 && args[0] == "selftest-replay" {
+		os.Exit(ck.selftestReplay())
 	}
 	tier := "quick"
 	if len(args) >= 1 {
@@ -562,6 +566,26 @@ func (ck *Check) report(v viol, seed uint64, tier string) string {
 		fmt.Fprintln(os.Stderr, "cannot write replay:", err)
 	}
 	fmt.Printf("violation class=%s batch=%s run=%d: %s\n", out.Class, b.Name, v.run, out.Detail)
+	// the minimised file must fail the same way in a fresh process
+	if exe, err := os.Executable(); err == nil && os.Getenv("VERIF_NO_FRESH_REPLAY") == "" {
+		cmd := exec.Command(exe, ck.Prop, "replay", path)
+		cmd.Env = append(os.Environ(), "VERIF_NO_FRESH_REPLAY=1")
+		done := make(chan error, 1)
+		if cmd.Start() == nil {
+			go func() { done <- cmd.Wait() }()
+			select {
+			case err := <-done:
+				code := 0
+				if ee, ok := err.(*exec.ExitError); ok {
+					code = ee.ExitCode()
+				}
+				fmt.Printf("replay of the minimised tape in a fresh process: %s\n", map[bool]string{true: "reproduced", false: fmt.Sprintf("NOT reproduced (exit %d)", code)}[code == 1])
+			case <-time.After(120 * time.Second):
+				cmd.Process.Kill()
+				fmt.Println("replay of the minimised tape in a fresh process: timed out")
+			}
+		}
+	}
 	return path
 }
 
@@ -756,4 +780,61 @@ func (ck *Check) watchdog(b *Batch, seed uint64, tier string, curRun, curSince [
 			os.Exit(1)
 		}
 	}
+}
+
+// selftestReplay checks the simulator itself: for a sample of runs of every
+// batch, executing the run from its seed (record mode) and executing it again
+// from the recorded tape (replay mode) must make exactly the same draws and
+// reach the same verdict.  A generator that consumed the tape differently in the
+// two modes would silently break replay files and shrinking.
+func (ck *Check) selftestReplay() int {
+	seed := uint64(1)
+	if s := os.Getenv("VERIF_SEED"); s != "" {
+		if v, err := strconv.ParseUint(s, 10, 64); err == nil {
+			seed = v
+		}
+	}
+	bad, total := 0, 0
+	for _, b := range ck.Batches {
+		if b.ChildInit != nil {
+			b.ChildInit()
+		}
+		n := min(b.Quick, 150)
+		step := max(1, b.Quick/n)
+		for k := 0; k < n; k++ {
+			i := k * step
+			if b.Isolated {
+				// isolated batches run in child processes because process state
+				// matters to them (cold lazy tables ...): warm that state up so
+				// that the two executions compared below start alike
+				safeRun(b, &RunCtx{T: NewTape(Mix(seed, ck.Prop+"/"+b.Name, uint64(i))), Index: i, Tier: "quick", St: NewStats()})
+			}
+			t1 := NewTape(Mix(seed, ck.Prop+"/"+b.Name, uint64(i)))
+			o1 := safeRun(b, &RunCtx{T: t1, Index: i, Tier: "quick", St: NewStats()})
+			t2 := ReplayTape(t1.Rec)
+			o2 := safeRun(b, &RunCtx{T: t2, Index: i, Tier: "quick", St: NewStats()})
+			total++
+			same := len(t1.Rec) == len(t2.Rec) && (o1 == nil) == (o2 == nil)
+			if same {
+				for j := range t1.Rec {
+					if t1.Rec[j] != t2.Rec[j] {
+						same = false
+						break
+					}
+				}
+			}
+			if same && o1 != nil && o1.Class != o2.Class {
+				same = false
+			}
+			if !same {
+				bad++
+				fmt.Printf("replay divergence: batch %s run %d: record made %d draws, replay %d; verdicts %v / %v\n", b.Name, i, len(t1.Rec), len(t2.Rec), o1 != nil, o2 != nil)
+			}
+		}
+	}
+	fmt.Printf("selftest-replay property=%s: %d runs executed twice (from seed, from recorded tape), %d divergent\n", ck.Prop, total, bad)
+	if bad > 0 {
+		return 2
+	}
+	return 0
 }
